@@ -28,8 +28,8 @@ func ReadLongString(source io.Reader) (string, error) {
 	} else if length <= 0 {
 		return "", nil
 	} else {
-		decoded := make([]byte, length)
-		if _, err := io.ReadFull(source, decoded); err != nil {
+		decoded, err := readContent(source, length)
+		if err != nil {
 			return "", fmt.Errorf("cannot read [long string] content: %w", err)
 		}
 		return string(decoded), nil
